@@ -113,7 +113,7 @@ def main():
                      "kind_free_text": "Go harness: parent/child process runner, online reference-model monitors, structure walkers, counting comparators, fd monitor, race detector + porcupine for C18; coverage counters of the library as evidence"}],
         "checks": checks,
         "not_applicable": na,
-        "notes": "All checks rebuild the harness against /repo's working tree on every invocation (go build, replace directive). Exit 0 held / 1 violation / 3 inconclusive. VERIF_SEED selects the PRNG seed; tiers are case counts.",
+        "notes": "All checks rebuild the harness against /repo's working tree on every invocation (go build, replace directive). Exit 0 held / 1 violation (VIOLATION line with a replay file) / 3 inconclusive (INCONCLUSIVE line: a floor of observations was not met, a liveness canary was missed, or a watchdog firing did not reproduce). VERIF_SEED selects the PRNG seed; tiers are case counts, never time budgets; an explicit tier argument wins over VERIF_TIER. Known findings: KNOWN_FINDINGS.txt (11 defects of the pinned tree, all repaired by fix: commits in /repo; no open entry). Evidence of detection power: 94 development mutants (mutants/, selftest/) and >100 independently seeded breaking changes (seeded/), see DESIGN.md section 10.",
     }
     with open(os.path.join(HERE, "MANIFEST.json"), "w") as f:
         json.dump(m, f, indent=1)
